@@ -21,7 +21,8 @@ def t2s(x, kind='rat'):
     return str(f.numerator) if f.denominator == 1 else '%d/%d' % (f.numerator, f.denominator)
 
 
-TIME_POS = {'sleep': [1], 'after': [1], 'before': [1], 'moment': [1], 'delay': [1], 'start': [1]}
+TIME_POS = {'sleep': [1], 'after': [1], 'before': [1], 'moment': [1], 'delay': [1], 'start': [1],
+            'transfer': [2, 3], 'interval': [1], 'delayiter': [1], 'nestedrun': [1], 'pipes': 'all'}
 
 
 def model_line(scenario, kind='rat'):
@@ -50,7 +51,8 @@ def model_line(scenario, kind='rat'):
             return '1' if x else '0'
         if isinstance(x, str):
             return x
-        if (head in TIME_POS and pos in TIME_POS[head]) or isinstance(x, (fractions.Fraction, float)):
+        if (head in TIME_POS and (TIME_POS[head] == 'all' or pos in TIME_POS[head])) \
+                or isinstance(x, (fractions.Fraction, float)):
             return t2s(x, kind)
         return str(x)
     return 'mach %s %s' % (kind, ser(fix(scenario)))
@@ -83,10 +85,21 @@ class Interp:
         from usim import Flag, Lock
         self.flags = [Flag() for _ in range(self.num('flags', 0))]
         self.locks = [Lock() for _ in range(self.num('locks', 0))]
+        from usim import Queue, Channel, Tracked, Resources, Capacities, Pipe, UnboundedPipe
+        self.queues = [Queue() for _ in range(self.num('queues', 0))]
+        self.chans = [Channel() for _ in range(self.num('chans', 0))]
+        self.tracked = [Tracked(int(v)) for v in self.fields.get('tracked', [])]
+        self.res = {}
+        for i, r in enumerate(self.fields.get('resources', [])):
+            levels = {self.rname(j): int(v) for j, v in enumerate(r[2:])}
+            self.res[i] = (Capacities if int(r[1]) else Resources)(**levels)
+        self.pipes = [UnboundedPipe() if t == 'inf' else Pipe(self.tv(t)) for t in self.fields.get('pipes', [])]
         self.scopes = {}
         self.tasks = {}
         self.task_index = {}
         self.task_by_label = {}
+        self.nested_unfinished = set()
+        self.started = set()
 
         class A(Exception):
             pass
@@ -98,6 +111,13 @@ class Interp:
     def num(self, name, default):
         v = self.fields.get(name)
         return int(v[0]) if v else default
+
+    @staticmethod
+    def rname(j):
+        return 'r%02d' % j
+
+    def amounts(self, am):
+        return {self.rname(j): int(v) for j, v in enumerate(am)}
 
     def tv(self, x):
         """time value as the implementation gets it"""
@@ -187,6 +207,14 @@ class Interp:
             return Any(*[self.cond(x) for x in c[1:]])
         if h == 'inv':
             return ~self.cond(c[1])
+        if h == 'tracked':
+            import operator
+            op = [operator.lt, operator.le, operator.eq, operator.ne, operator.ge, operator.gt][c[2]]
+            return op(self.tracked[c[1]], c[3])
+        if h == 'reslevel':
+            import operator
+            op = [operator.lt, operator.le, operator.eq, operator.ne, operator.ge, operator.gt][c[2]]
+            return op(self.res[c[1]], self.amounts(c[3]))
         raise ValueError(c)
 
     def pat_matches(self, p, e):
@@ -299,11 +327,132 @@ class Interp:
                 await self.block(label, s[2:])
         elif h == 'avail':
             self.emit(label, 'avail', [1 if self.locks[s[1]].available else 0])
+        elif h == 'qput':
+            await self.queues[s[1]].put(s[2])
+        elif h == 'qget':
+            v = await self.queues[s[1]]
+            self.emit(label, 'got', [v])
+        elif h == 'qclose':
+            await self.queues[s[1]].close()
+        elif h == 'qiter':
+            n = 0
+            if s[2] > 0:
+                async for v in self.queues[s[1]]:
+                    self.emit(label, 'got', [v])
+                    await self.block(label, s[3:])
+                    n += 1
+                    if n >= s[2]:
+                        break
+        elif h == 'cput':
+            await self.chans[s[1]].put(s[2])
+        elif h == 'cget':
+            v = await self.chans[s[1]]
+            self.emit(label, 'got', [v])
+        elif h == 'cclose':
+            await self.chans[s[1]].close()
+        elif h == 'citer':
+            n = 0
+            if s[2] > 0:
+                # an abandoned iteration (break / exception) is finalised by CPython's reference
+                # counting; when exactly the consumer's buffer disappears is not observable
+                async for v in self.chans[s[1]]:
+                    self.emit(label, 'got', [v])
+                    await self.block(label, s[3:])
+                    n += 1
+                    if n >= s[2]:
+                        break
+        elif h == 'settracked':
+            await self.tracked[s[1]].set(s[2])
+        elif h == 'addtracked':
+            await (self.tracked[s[1]] + s[2])
+        elif h in ('borrow', 'claim'):
+            r = self.res.get(s[1])
+            if r is None:
+                self.emit(label, 'unbound')
+                return
+            cm = (r.borrow if h == 'borrow' else r.claim)(**self.amounts(s[2]))
+            self.res[s[3]] = cm
+            async with cm:
+                await self.block(label, s[4:])
+        elif h == 'reschange':
+            r = self.res.get(s[1])
+            if r is None:
+                self.emit(label, 'unbound')
+                return
+            if s[2] == 0:
+                await r.increase(**self.amounts(s[3]))
+            elif s[2] == 1:
+                await r.decrease(**self.amounts(s[3]))
+            else:
+                await r.set(**{k: v for k, v in self.amounts(s[3]).items() if v != -1})
+        elif h == 'levels':
+            r = self.res.get(s[1])
+            if r is None:
+                self.emit(label, 'unbound')
+            else:
+                self.emit(label, 'levels', [v for _, v in r.levels])
+        elif h == 'transfer':
+            await self.pipes[s[1]].transfer(self.tv(s[2]), None if s[3] is None else self.tv(s[3]))
+        elif h in ('interval', 'delayiter'):
+            from usim import interval, delay
+            n = 0
+            if s[2] > 0:
+                async for _now in (interval if h == 'interval' else delay)(self.tv(s[1])):
+                    self.emit(label, 'tick')
+                    await self.block(label, s[3:])
+                    n += 1
+                    if n >= s[2]:
+                        break
+            elif self.tv(s[1]) < 0:
+                raise ValueError('period must not be negative')
+        elif h == 'collect':
+            from usim import collect
+            holders = [{} for _ in s[1:]]
+            coros = [self.task_body(hd, pr[1:]) for hd, pr in zip(holders, s[1:])]
+            # collect() spawns the activities in argument order inside its own scope: labels follow
+            base = self.task_count
+            for i, hd in enumerate(holders):
+                hd['label'] = 1000 + base + i
+            self.pending_collect = (base, len(holders), holders)
+            results = await self.collect_call(collect, coros, holders)
+            self.emit(label, 'collected', [0 if v is None else v for v in results])
+        elif h == 'nestedrun':
+            from usim import run
+            progs = s[2:]
+            base = 10000 + self.nested_base()
+            inner = [self.root(base + i, p[1:]) for i, p in enumerate(progs)]
+            self.labels |= {base + i for i in range(len(progs))}
+            try:
+                run(*inner, start=self.tv(s[1]))
+            finally:
+                stuck = {base + i for i in range(len(progs))} - self.finished
+                self.nested_unfinished |= stuck
+                for c in inner:
+                    c.close()
         else:
             raise ValueError('unknown statement %r' % (s,))
 
+    async def collect_call(self, collect, coros, holders):
+        # register the tasks that collect() creates (in order) by watching the task counter
+        base = self.task_count
+        self.task_count += len(coros)
+        for i, hd in enumerate(holders):
+            self.labels.add(hd['label'])
+        try:
+            return await collect(*coros)
+        finally:
+            for c in coros:
+                c.close()
+            _ = base
+
+    def nested_base(self):
+        self.nested_count = getattr(self, 'nested_count', 0)
+        self.nested_count += 1
+        return 100 * (self.nested_count - 1)
+
     async def task_body(self, holder, prog):
         # (the label is known once Scope.do returned; the payload only starts later)
+        self.started.add(holder.get('label'))
         try:
             try:
                 await self.block_l(holder, prog)
@@ -318,6 +467,7 @@ class Interp:
             await self.stmt(holder['label'], s)
 
     async def root(self, i, prog):
+        self.started.add(i)
         try:
             try:
                 await self.block(i, prog)
@@ -358,8 +508,8 @@ class Interp:
             outcome = 'crash ' + ','.join(str(x) for x in self.exn_code(e))
         finally:
             self.ended = True
-        unfinished = sorted(lb for lb in self.labels - self.finished
-                            if lb < 1000 or not self.task_by_label[lb].done)
+        # unfinished = activities whose own code started but has not ended
+        unfinished = sorted(((self.labels & self.started) - self.finished) | self.nested_unfinished)
         result = {'events': self.events, 'outcome': outcome, 'final': t2s(loop.time, self.kind),
                   'unfinished': unfinished, 'activations': loop.verif_count}
         # finalise leftovers now (inside no loop; nothing is recorded any more)
